@@ -26,11 +26,10 @@ var (
 		// both sides go away: a clean close of one side, then the other side closes / resets / its writes fail
 		"server-then-client-close", "client-then-server-close"}
 	States = []string{"idle", "mid-stream", "blocked", "chan-full"}
-	// WriteBlockedEvents: the events enumerated in the "write-blocked" state (the server has stopped
-	// reading, the relay's write toward it is blocked in the socket and the client->server reader is
-	// parked behind it). Events that only the parked client->server reader could observe
-	// (client-close, proto-error-client) are not enumerated there, see notes/C10.md.
-	WriteBlockedEvents = []string{"server-close", "write-fail-client", "write-fail-server", "proto-error-server", "closing"}
+	// In the "write-blocked" state the server has stopped reading: the relay's socket write toward it is
+	// blocked and the client->server reader is parked behind it. In "client-write-blocked" the client has
+	// stopped reading: the server->client writer is blocked in Write(cc) and its reader is parked.
+	// Both are enumerated with every event.
 	// DialingEvents: events while the upstream TLS handshake is still in progress.
 	DialingEvents = []string{"closing", "client-close", "write-fail-server"}
 )
@@ -168,10 +167,11 @@ type session struct {
 	returned   int32
 
 	hsGate        chan struct{} // dialing cells: the harness server starts its TLS handshake when this closes
-	hsAbort       int32         // dialing cells: reset the TCP connection instead of handshaking
-	hsDone        chan error    // result of the server-side handshake
-	delayByPush   bool          // the delayed direction is parked pushing into the peer's full output channel (no hook marker)
-	srvObservable bool          // the server still reads: it will see the relay's close as EOF/reset
+	hsReleased    bool
+	hsAbort       int32      // dialing cells: reset the TCP connection instead of handshaking
+	hsDone        chan error // result of the server-side handshake
+	delayByPush   bool       // the delayed direction is parked pushing into the peer's full output channel (no hook marker)
+	srvObservable bool       // the server still reads: it will see the relay's close as EOF/reset
 	cliAlive      bool
 	srvAlive      bool // server can still write
 	open          []uint32
@@ -262,6 +262,44 @@ func (s *session) countPushBlocked() int {
 		}
 	}
 	return n
+}
+
+// Unobservable reports whether, in this cell, the only goroutine that could observe the terminating
+// event is the reader parked behind a blocked write (the relay has no reader running on that
+// connection and no deadline). Those cells are shaped so that nothing else can end the session by
+// luck: no post-event traffic, and a marker frame that is not forwarded.
+func Unobservable(c Cell) bool {
+	switch c.State {
+	case "write-blocked":
+		return c.Event == "client-close" || c.Event == "proto-error-client"
+	case "client-write-blocked":
+		return c.Event == "server-close" || c.Event == "proto-error-server"
+	}
+	return false
+}
+
+// writeBlockedSide: "upstream" / "client" if a session goroutine is blocked inside a Write toward that
+// side while a reader is parked on a push (its output channel is full behind the blocked writer).
+func writeBlockedSide(gs []vh.G) string {
+	parked := false
+	side := ""
+	for _, g := range gs {
+		if pushBlocked(g) {
+			parked = true
+		}
+		switch {
+		case g.HasFrame("crypto/tls.(*Conn).Write") && strings.HasPrefix(g.State, "IO wait"):
+			side = "upstream"
+		case g.HasFrame("vh.(*PipeConn).Write") && strings.HasPrefix(g.State, "sync.Cond.Wait"):
+			if side == "" {
+				side = "client"
+			}
+		}
+	}
+	if !parked {
+		return ""
+	}
+	return side
 }
 
 // deadlockSig returns the deadlock signature if a session goroutine is parked
@@ -355,7 +393,11 @@ func (s *session) start() bool {
 	if err != nil {
 		return s.fail("listen: %v", err)
 	}
-	s.cc, s.cl = vh.Pipe(1<<20, "10.9.8.7:40000", "10.1.1.1:443")
+	pipeCap := 1 << 20
+	if s.cell.State == "client-write-blocked" {
+		pipeCap = 64 << 10 // a client with a small receive buffer
+	}
+	s.cc, s.cl = vh.Pipe(pipeCap, "10.9.8.7:40000", "10.1.1.1:443")
 	s.closing = make(chan bool)
 	s.gates = NewGates()
 	s.proxyDone = make(chan struct{})
@@ -368,6 +410,7 @@ func (s *session) start() bool {
 	if s.cell.State == "dialing" {
 		s.hsGate = make(chan struct{})
 	}
+	gate := s.hsGate
 	go func() {
 		c, err := s.ln.Accept()
 		if err != nil {
@@ -380,8 +423,8 @@ func (s *session) start() bool {
 			raw.SetReadBuffer(16 << 10)
 		}
 		rawCh <- raw
-		if s.hsGate != nil {
-			<-s.hsGate
+		if gate != nil {
+			<-gate
 			if atomic.LoadInt32(&s.hsAbort) != 0 {
 				raw.SetLinger(0)
 				raw.Close()
@@ -965,6 +1008,60 @@ func (s *session) establishWriteBlocked(delay int) bool {
 	return true
 }
 
+// establishClientWriteBlocked is the mirror image: the client grants large
+// windows and then stops reading (64 KiB pipe) while the server sends. The
+// download goes on within the credit the relay returns to the server until
+// the server->client writer goroutine is blocked in Write(cc), its output
+// channel is full and its reader is parked on the next push.
+func (s *session) establishClientWriteBlocked(delay int) bool {
+	const big = 1 << 30
+	if err := s.cli.Settings(http2.Setting{ID: http2.SettingInitialWindowSize, Val: big}); err != nil {
+		return s.fail("client-write-blocked: settings: %v", err)
+	}
+	if err := s.cli.WindowUpdate(0, big-65535); err != nil {
+		return s.fail("client-write-blocked: window update: %v", err)
+	}
+	if !s.pingThrough(s.cli) { // the relay has processed both
+		return false
+	}
+	id, ok := s.openStream()
+	if !ok {
+		return false
+	}
+	s.cli.Pause()
+	chunk := vh.Stamp(9, 16384)
+	sent := int64(0)
+	start := time.Now()
+	for {
+		var credit int64
+		s.srv.Look(func(o *Obs) bool {
+			credit = 65535 + o.WUConn - sent
+			if c := 65535 + o.WUStream[id] - sent; c < credit {
+				credit = c
+			}
+			return true
+		})
+		if credit >= int64(len(chunk)) {
+			if err := s.srv.Data(id, false, chunk); err != nil {
+				return s.fail("client-write-blocked: download: %v", err)
+			}
+			sent += int64(len(chunk))
+			continue
+		}
+		if writeBlockedSide(relayGoroutines(s.base)) == "client" {
+			break
+		}
+		if time.Since(start) > WaitWatchdog {
+			return s.fail("client-write-blocked: after %d bytes the relay's writer is not blocked in Write(cc) with its reader parked", sent)
+		}
+		time.Sleep(500 * time.Microsecond)
+	}
+	s.delayByPush = delay == S2C
+	s.res.Params["downloaded_bytes_until_stall"] = sent
+	s.res.Params["readers_parked_on_push"] = 1
+	return true
+}
+
 // runDialing: the session ends while the upstream TLS handshake is still in
 // progress (the harness server has accepted the TCP connection but has not
 // started its handshake yet).
@@ -1053,6 +1150,9 @@ func (s *session) armDelay(dir int, blocked [2]string) bool {
 			kind = "window-update"
 		}
 	}
+	if Unobservable(s.cell) {
+		kind = "window-update" // consumed by the relay, never forwarded
+	}
 	var err error
 	switch kind {
 	case "ping":
@@ -1102,7 +1202,7 @@ func (s *session) fire() bool {
 		s.cc.FailWrites(errInjected)
 		var trig []string
 		x := 1 + s.rng.Intn(3) // bit0: server ping, bit1: client data
-		if len(s.open) == 0 || s.cell.State == "write-blocked" {
+		if len(s.open) == 0 || s.cell.State == "write-blocked" || s.cell.State == "client-write-blocked" {
 			x = 1 // (write-blocked: the relay no longer reads the client)
 		}
 		if x&2 != 0 {
@@ -1125,7 +1225,10 @@ func (s *session) fire() bool {
 		s.raw.SetLinger(0)
 		s.raw.Close()
 		var trig []string
-		if len(s.open) > 0 && s.rng.Intn(2) == 0 {
+		// (client-write-blocked: client DATA would have to be acknowledged toward the client, which
+		// parks the client->server reader on the blocked writer's lock before it reaches the PING;
+		// the trigger there is the PING alone, see notes/C10.md)
+		if x := s.rng.Intn(2); len(s.open) > 0 && x == 0 && s.cell.State != "client-write-blocked" {
 			id := s.open[s.rng.Intn(len(s.open))]
 			if err := s.cli.Data(id, false, s.payload(100)); err != nil {
 				return s.fail("trigger: %v", err)
@@ -1192,7 +1295,7 @@ func (s *session) fire() bool {
 
 // postTraffic lets the surviving endpoints say a little more (errors ignored).
 func (s *session) postTraffic() {
-	if s.rng.Intn(3) != 0 {
+	if s.rng.Intn(3) != 0 || Unobservable(s.cell) {
 		s.res.Params["post_event_traffic"] = false
 		return
 	}
@@ -1222,7 +1325,11 @@ func (s *session) violate(sig, what string, w map[string]interface{}) {
 func (s *session) oracle() {
 	ev := s.cell.Event
 	sigNoReturn := func() string {
-		if d := deadlockSig(relayGoroutines(s.base)); d != "" {
+		gs := relayGoroutines(s.base)
+		if side := writeBlockedSide(gs); side != "" {
+			return "C10:no-return:" + ev + ":" + side + "-write-blocked"
+		}
+		if d := deadlockSig(gs); d != "" {
 			return d
 		}
 		return "C10:no-return:" + ev
@@ -1236,6 +1343,9 @@ func (s *session) oracle() {
 		gs := relayGoroutines(s.base)
 		sig := sigNoReturn()
 		what := "Proxy did not return after " + ev + " in state " + s.cell.State + ": every session goroutine is parked and no byte moves"
+		if strings.HasSuffix(sig, "-write-blocked") {
+			what = "Proxy did not return after " + ev + " in state " + s.cell.State + ": a writer goroutine is blocked in a Write toward a peer that no longer reads, its reader is parked behind it"
+		}
 		if strings.HasPrefix(sig, "C10:deadlock:") {
 			what = "Proxy did not return after " + ev + " in state " + s.cell.State + ": a relay goroutine is parked pushing into an output channel that nobody drains"
 		}
@@ -1347,9 +1457,9 @@ func (s *session) oracle() {
 
 // releaseHandshake lets the gated harness server go on (once).
 func (s *session) releaseHandshake() {
-	if s.hsGate != nil {
+	if s.hsGate != nil && !s.hsReleased {
+		s.hsReleased = true
 		close(s.hsGate)
-		s.hsGate = nil
 	}
 }
 
@@ -1439,6 +1549,8 @@ func RunCell(c Cell, rng *rand.Rand, budget *Budget) *Result {
 		ok = s.establishChanFull(delay)
 	case "write-blocked":
 		ok = s.establishWriteBlocked(delay)
+	case "client-write-blocked":
+		ok = s.establishClientWriteBlocked(delay)
 	default:
 		s.fail("unknown state %q", c.State)
 	}
